@@ -88,7 +88,7 @@ type objErr struct {
 	f []Op
 }
 
-func (e objErr) Error() string { return e.s }
+func (e objErr) Error() string                          { return e.s }
 func (e objErr) MarshalZerologObject(ev *zerolog.Event) { ApplyEvent(ev, e.f) }
 
 type ptrErr struct{ s string }
